@@ -10,6 +10,7 @@ EXTENDS Autograd
 
 MC_LeafVals == {Scalar(QI(2)), Scalar(QI(3))}
 MC_UnOps == {<<"scale", [k |-> Two]>>, <<"pow", [k |-> Two]>>}
+MC_CtorShapes == {}
 MC_BinOps == {<<"add", NoPar>>, <<"sub", NoPar>>, <<"mul", NoPar>>, <<"eq", NoPar>>}
 
 (* keep rational entries far from TLC's 32-bit limit *)
